@@ -528,8 +528,8 @@ func (i *interpreter) startTracking() {
 
 func (ps *pathState) noteWrite(what string) {
 	ps.dirty = true
-	if !ps.trackW {
-		return
+	if !ps.trackW || ps.locked > 0 {
+		return // not tracked, or performed while holding a mutex
 	}
 	if len(ps.writes) < 50 {
 		ps.writes = append(ps.writes, what+" at "+ps.curPos())
